@@ -51,7 +51,8 @@ TwinFailsOf(e, x, twins, surr, row, strict) ==
       tw == Twins(R, e.md)
       n == Len(X)
   IN (IF twins # tw THEN {"TwinsDef|twins" \o row} ELSE {})
-     \cup (IF Len(surr) # n \/ \E j \in 1..Len(surr) : ~(\E t \in 1..Len(x) : x[t] = surr[j])
+     \* (a surrogate consists of original STATES: of the first components of the n embedded state vectors)
+     \cup (IF Len(surr) # n \/ \E j \in 1..Len(surr) : ~(\E t \in 1..n : x[t] = surr[j])
            THEN {"OriginalStates|twin_surrogates" \o row}
            ELSE IF ~TwinWalk(tw, n, [j \in 1..Len(surr) |-> IdxOf(x, surr[j])])
                 THEN {"TwinWalk|twin_surrogates" \o row} ELSE {})
